@@ -76,7 +76,8 @@
 (*    layout (one line / several), the letter case of its name and which   *)
 (*    accessor is asked first are irrelevant.  Left open: the other        *)
 (*    accessors for undefined names, `char NAME;` widths, [] widths of an  *)
-(*    empty table, the exact width of enum fields.                         *)
+(*    empty table, the exact width of enum fields (a width of 0 may show   *)
+(*    as 1: numpy has no zero-width array element).                        *)
 (***************************************************************************)
 EXTENDS Yanny
 
@@ -293,9 +294,29 @@ AccessorsOf(res, tb, sb) ==
       notes |-> [brace |-> \E k \in 1..Len(tb) : BraceInTypedefComment(tb[k]),
                  semicolon |-> \E k \in 1..Len(tb) : SemicolonInTypedefComment(tb[k]),
                  charname |-> \E ti \in 1..Len(res.tables) : \E ci \in 1..Len(res.tables[ti].cols) :
-                                 res.tables[ti].cols[ci].base # KwChar /\ CharInName(res.tables[ti].cols[ci].base)]]
+                                 res.tables[ti].cols[ci].base # KwChar /\ CharInName(res.tables[ti].cols[ci].base),
+                 (* a char NAME[n][] member of a non-empty table all of whose strings are empty (width 0) *)
+                 emptyauto |-> \E ti \in 1..Len(res.tables) : \E ci \in 1..Len(res.tables[ti].cols) :
+                                 LET col == res.tables[ti].cols[ci] IN
+                                 col.base = KwChar /\ col.alen > 0 /\ col.clen = Auto /\ res.tables[ti].rows # <<>>
+                                 /\ res.tables[ti].width[ci] = 0]]
 
 Accessors(text) == AccessorsOf(SpecParse(text), TypedefBlocks(text), StructBlocks(text))
+
+(***************************************************************************)
+(* Named deviations of pydl found by this unit (known_findings.json, ids   *)
+(* D-X08-n; Dev_UnicodeBytes = D-X08-1 is defined with S4).  Each is the   *)
+(* predicate on the TEXT that identifies the affected files; strict runs   *)
+(* use them only to attach the id to a failing case.                       *)
+(***************************************************************************)
+(* D-X08-2: a ';' inside a comment of a typedef is taken for the end of a member declaration (phantom members) *)
+Dev_SemicolonInTypedefComment(text) == Accessors(text).notes.semicolon
+(* D-X08-3 = D-C02-4: a brace inside a comment of a typedef ends the typedef early *)
+Dev_BraceInTypedefComment(text) == Accessors(text).notes.brace
+(* D-X08-4: "is it a char member" is decided by searching the letters "char" in the type text *)
+Dev_CharInTypeName(text) == Accessors(text).notes.charname
+(* D-X08-5: a char NAME[n][] member holding only empty strings gets the numpy type ('S0', (n,)), which numpy refuses *)
+Dev_EmptyAutoWidthArray(text) == Accessors(text).notes.emptyauto
 
 (* the struct blocks and the reference reader agree on what the text declares *)
 BlocksAgreeOf(res, sb) ==
